@@ -34,6 +34,8 @@ def run_case(stream, seed, ctx, params):
         d = G.complement_chain_deck(rng)
     elif m_ < 0.18:
         d = G.union_complement_deck(rng)
+    elif m_ < 0.26:
+        d = G.twin_block_deck(rng)
     else:
         d = G.build_flat_deck(rng, macro_p=0.25, tr_p=0.15 if rng.random() < 0.3 else 0.0)
         D.vary_cards(d, rng)
